@@ -141,7 +141,7 @@ def _server_run(params, residue):
                 trace.append((ev[1], ev[3].get("dst"), bytes(ev[3]["data"])))
         trace.append(("canaries", len(canaries), echoes[:2]))
         trace.append(("alive", srv.alive(), sim.health(srv)))
-        trace.append(("table", repr([sorted(r.items()) for r in srv.snapshot])))
+        trace.append(("table", repr([sorted((kk, vv) for kk, vv in r.items() if kk != "heap_kb") for r in srv.snapshot])))
         return trace
     finally:
         sim.close()
